@@ -61,20 +61,42 @@ pub fn set_write_limit(limit: Option<usize>) -> Option<usize> {
     WRITE_LIMIT.with(|c| c.replace(limit.map(|n| n.max(1))))
 }
 
+thread_local! {
+    /// called by the sinks of `drive_conn` at the start of every `write` call with the call's index (0, 1, …): what
+    /// another task on the same thread does while this send is suspended in the middle of its output
+    static WRITE_HOOK: std::cell::RefCell<Option<Box<dyn FnMut(usize)>>> = const { std::cell::RefCell::new(None) };
+}
+pub fn set_write_hook(hook: Option<Box<dyn FnMut(usize)>>) {
+    WRITE_HOOK.with(|h| *h.borrow_mut() = hook)
+}
+
 /// An `AsyncWrite` that accepts at most `limit` bytes per call (a socket whose send buffer is nearly full): a caller
 /// that ignores the returned count loses bytes here, as it would on a real connection.
 pub struct ChoppySink {
     pub out: Vec<u8>,
     pub limit: Option<usize>,
     pub short_writes: usize,
+    pub calls: usize,
 }
 impl ChoppySink {
     pub fn new() -> Self {
-        ChoppySink { out: Vec::new(), limit: WRITE_LIMIT.with(|c| c.get()), short_writes: 0 }
+        ChoppySink { out: Vec::new(), limit: WRITE_LIMIT.with(|c| c.get()), short_writes: 0, calls: 0 }
     }
 }
 impl tokio::io::AsyncWrite for ChoppySink {
     fn poll_write(mut self: Pin<&mut Self>, _cx: &mut Context<'_>, buf: &[u8]) -> Poll<std::io::Result<usize>> {
+        let call = self.calls;
+        self.calls += 1;
+        // (the hook is taken out while it runs: what it does may write into sinks of its own)
+        if let Some(mut hook) = WRITE_HOOK.with(|h| h.borrow_mut().take()) {
+            hook(call);
+            WRITE_HOOK.with(|h| {
+                let mut h = h.borrow_mut();
+                if h.is_none() {
+                    *h = Some(hook)
+                }
+            });
+        }
         let n = match self.limit {
             Some(l) if l < buf.len() => {
                 self.short_writes += 1;
